@@ -15,7 +15,8 @@ RULE = (
     "construction) and sampled with Hypothesis over the full alphabets (CUSIP 0-9A-Z*@#, SEDOL "
     "digits+consonants, ISIN agency-prefix + 9 alphanumerics); for every base the check digit is "
     "compared with an independent implementation of the public algorithm, the completed id must "
-    "validate, all 35 replacements of the check character, 14 wrong lengths must not validate; "
+    "validate, all 35 replacements of the check character, 14 wrong lengths and the id with one extra character (line ends, blanks, NUL, "
+    "digit; front or back) must not validate; a lower-case spelling is refused or gets the upper-case check digit; "
     "non-trivial = base with >=1 non-zero digit or letter whose 35 check-character replacements were "
     "all tried (sampled digit-only bases are not counted, they overlap the enumerated space)"
 )
